@@ -144,6 +144,19 @@ Theorem C17_cleanup_refuted :
   (exists w, collect_logging w = false /\ joined (run_trace w) = false /\ helpers_left (run_trace w) = 1%nat).
 Proof. exact cleanup_refuted. Qed.
 
+(** any number of awaiters, at any time: every further await of the handle (started before
+    completion, in the loop iteration in which the helper task finished, after the process exited,
+    much later) never raises and yields the same returned / raised / creation time, with an exit
+    time that is not earlier ([late] = how much later it completes).  Holds because __await__
+    takes the exit time itself after the task result is there (part of the skeleton tie). *)
+Theorem C17_await_idempotent : forall w late x,
+  await_handle w = Yields x ->
+  await_late w late = Yields (mkExited (returned x) (raised x) (created_at x) (exited_at x + late)).
+Proof. exact await_idempotent. Qed.
+
+Theorem C17_late_await_never_raises : forall w late e, await_late w late <> Raises e.
+Proof. exact late_await_never_raises. Qed.
+
 (** creation and exit times are present and ordered *)
 Theorem C17_times_ordered : forall w x, await_handle w = Yields x -> (created_at x < exited_at x)%nat.
 Proof. exact times_ordered. Qed.
@@ -186,5 +199,7 @@ Print Assumptions C17_cleanup_prefix.
 Print Assumptions C17_process_always_joined.
 Print Assumptions C17_cleanup_partial.
 Print Assumptions C17_cleanup_refuted.
+Print Assumptions C17_await_idempotent.
+Print Assumptions C17_late_await_never_raises.
 Print Assumptions C17_times_ordered.
 Print Assumptions C17_signals_before_exit.
